@@ -101,13 +101,14 @@ Definition eff_iter (i : nat) (s : state) : state :=
 (* one poll of the task: Receiver::poll_next + loop *)
 Fixpoint poll_loop (f : nat) (i : nat) (s : state) : state :=
   match f with
-  | O => set_err s
+  | O => set_halted (emit EvDiverge s) true          (* the real task would spin forever *)
   | S f =>
       if negb (ealive (getn s i)) then updn i (fun n => set_edone n true) s  (* Ready(None) *)
       else
         let s := updn i (fun n => set_ereg n true) s in
         if eflag (getn s i) then
-          poll_loop f i (eff_iter i (updn i (fun n => set_eflag n false) s))
+          let s := updn i (fun n => set_epoll (set_eflag n false) true) s in
+          poll_loop f i (updn i (fun n => set_epoll n false) (eff_iter i s))
         else s                                                             (* Pending *)
   end.
 
@@ -168,10 +169,10 @@ Definition init_node (d : decl) : node :=
   | DSig _ v => set_sval dnode v
   | DMemo _ _ => dnode
   | DDer _ => dnode
-  | DEff ERender _ _ => set_ealive dnode true
+  | DEff ERender _ _ => set_epoll (set_ealive dnode true) true
   | DEff _ _ _ =>
       (* effect_base: dirty, one notification before the task is spawned *)
-      set_ealive (set_efirst (set_eflag (set_edirty dnode true) true) true) true
+      set_epoll (set_ealive (set_efirst (set_eflag (set_edirty dnode true) true) true) true) true
   end.
 
 Definition create (s : state) (i : nat) : state :=
@@ -180,8 +181,8 @@ Definition create (s : state) (i : nat) : state :=
       (* first run, synchronously: owner.with(|| subscriber.with_observer(|| fun(None))) *)
       let s := begin_run true i s in
       let '(s, v) := eval p (read_any p) true (Some i, true) body s in
-      enqueue i (emit (EvEnd i v) s)
-  | DEff _ _ _ => enqueue i s
+      enqueue i (updn i (fun n => set_epoll n false) (emit (EvEnd i v) s))
+  | DEff _ _ _ => enqueue i (updn i (fun n => set_epoll n false) s)
   | _ => s
   end.
 
